@@ -602,26 +602,54 @@ pub fn judge_context(tags: &[&str], rec: &mut spec::record::Recorder) {
 /// the rendered outcomes must be the same (the later ones are judged by the ordinary workload).
 pub fn cold_start_equal(rec: &mut spec::record::Recorder, what: &str, inputs: &[Vec<u8>], f: &(dyn Fn(&[u8]) -> String + Sync)) {
     // every child process starts from another input (a "nothing seen yet" state is primed by
-    // whatever comes first); every third one makes its first calls from one thread only
+    // whatever comes first); every third one makes its first calls from one thread only. Two
+    // races: one in which every thread starts with a binary header, one in which every thread
+    // starts with a text line (each side of the crate gets its first deep calls from all threads
+    // at the same instant); every second child has the text race first.
     let rot = spec::engine::cold_rot();
-    let nthreads = if rot % 3 == 2 { 1 } else { 12 };
-    let outs = spec::engine::race_start(nthreads, |t| (0..inputs.len()).map(|k| f(&inputs[(rot + k + 3 * t) % inputs.len()])).collect::<Vec<String>>());
-    for (t, list) in outs.iter().enumerate() {
-        for (k, o) in list.iter().enumerate() {
-            let x = &inputs[(rot + k + 3 * t) % inputs.len()];
-            let later = f(x);
-            rec.events(2);
-            if *o != later {
-                rec.violation("cold-start-race", enc_case("any", x), "cold-start".into(), format!("cold start: thread {} of {}, among the first calls of the process, {} on {:?} gave {}; the same call later gives {}", t, nthreads, what, spec::json::show(x, 40), &o[..o.len().min(200)], &later[..later.len().min(200)]));
-                return;
+    let small = spec::engine::small();
+    let nthreads = if small { 3 } else if rot % 3 == 2 { 1 } else { 12 };
+    let binary: Vec<&Vec<u8>> = inputs.iter().filter(|x| x.len() >= 16 && x[..12] == spec::v2::SIG).collect();
+    let text: Vec<&Vec<u8>> = inputs.iter().filter(|x| !(x.len() >= 16 && x[..12] == spec::v2::SIG)).collect();
+    let mut phases = vec![binary, text];
+    if rot % 2 == 1 {
+        phases.reverse();
+    }
+    for set in phases {
+        if set.is_empty() {
+            continue;
+        }
+        let n = set.len();
+        let outs = spec::engine::race_start(nthreads, |t| (0..n).map(|k| f(set[(rot + k + 3 * t) % n])).collect::<Vec<String>>());
+        for (t, list) in outs.iter().enumerate() {
+            for (k, o) in list.iter().enumerate() {
+                let x = set[(rot + k + 3 * t) % n];
+                let later = f(x);
+                rec.events(2);
+                if *o != later {
+                    rec.violation("cold-start-race", enc_case("any", x), "cold-start".into(), format!("cold start: thread {} of {}, among the first calls of the process, {} on {:?} gave {}; the same call later gives {}", t, nthreads, what, spec::json::show(x, 40), &o[..o.len().min(200)], &later[..later.len().min(200)]));
+                    return;
+                }
             }
         }
     }
-    rec.class("cold-start|12 threads released together", || what.to_string());
+    rec.class("cold-start|threads released together", || what.to_string());
 }
 
 /// A small fixed set of inputs for the cold-start probes: text lines, binary headers, sections.
 pub fn cold_inputs() -> Vec<Vec<u8>> {
+    if spec::engine::small() {
+        // the interpreter: two lines, two binary headers
+        let mut v: Vec<Vec<u8>> = vec![b"PROXY TCP4 10.1.2.3 10.4.5.6 1024 443\r\nGET /".to_vec(), b"PROXY TCP6 2001:db8::1 ::ffff:1.2.3.4 1 65535\r\n".to_vec()];
+        for i in [3u64, 16] {
+            let (vc, fp) = spec::v2::valid_ctl(i);
+            let mut rng = spec::rng::Rng::new(i ^ 0xC01D);
+            let mut b = Vec::new();
+            spec::v2::valid_header_budget(&mut rng, &mut b, vc, fp, Some(30));
+            v.push(b);
+        }
+        return v;
+    }
     let mut v: Vec<Vec<u8>> = vec![
         b"PROXY TCP4 10.1.2.3 10.4.5.6 1024 443\r\nGET /".to_vec(),
         b"PROXY TCP6 2001:db8::1 ::ffff:1.2.3.4 1 65535\r\n".to_vec(),
@@ -659,11 +687,45 @@ pub fn cold_inputs() -> Vec<Vec<u8>> {
 /// the decoded endpoints. All of it is specified as a pure function of `x`, so the text must not
 /// depend on when, where or on which thread it is computed (cold-start probe, calling contexts).
 pub fn api_digest(x: &[u8]) -> String {
+    api_digest_for("", x)
+}
+
+/// Which parts of the digest a property speaks about (everything is always *executed*; a monitor
+/// only reports differences in the parts that belong to its own statement, C03 only panics).
+fn digest_parts(id: &str) -> &'static [&'static str] {
+    match id {
+        "C01" => &["v1", "text"],
+        "C02" | "C17" => &["v2"],
+        "C03" => &[],
+        "C04" | "C06" => &["v1", "v2", "auto"],
+        "C05" | "C12" => &["v1", "v2", "auto", "text"],
+        "C07" | "C09" | "C10" | "C13" | "C14" => &["v2-views"],
+        "C08" | "C15" | "C19" => &["v1-views"],
+        "C11" => &["v2-views", "section"],
+        "C16" => &["v1", "text", "v1-views", "v2-views"],
+        "C18" => &["v1", "text"],
+        "C20" => &["encoders", "v2-views"],
+        _ => &["v2", "v1", "auto", "text", "v1-views", "v2-views", "section", "encoders"],
+    }
+}
+
+pub fn api_digest_for(id: &str, x: &[u8]) -> String {
     use ppp::v2::WriteToHeader;
     use std::fmt::Write as _;
     let mut s = String::new();
+    let keep = digest_parts(id);
     let part = |s: &mut String, name: &str, r: Result<String, String>| {
-        let _ = write!(s, "[{}: {}]", name, r.unwrap_or_else(|m| format!("PANIC {}", m)));
+        match r {
+            Ok(t) if keep.contains(&name) => {
+                let _ = write!(s, "[{}: {}]", name, t);
+            }
+            Ok(_) => {}
+            // a panic belongs to C03 and to the property the part belongs to
+            Err(m) if keep.contains(&name) || id == "C03" || id.is_empty() => {
+                let _ = write!(s, "[{}: PANIC {}]", name, m);
+            }
+            Err(_) => {}
+        }
     };
     part(&mut s, "v2", guard(|| format!("{:?}", v2_parse(x))));
     part(&mut s, "v1", guard(|| format!("{:?}", v1_bytes(x))));
@@ -723,16 +785,18 @@ pub fn api_digest(x: &[u8]) -> String {
 
 /// The cold-start probe every monitor runs unless it has a sharper one of its own: the first calls
 /// of the process go through the whole API from twelve threads at once.
-pub fn default_cold_start(rec: &mut spec::record::Recorder) {
-    cold_start_equal(rec, "the whole public API (api_digest)", &cold_inputs(), &api_digest);
+pub fn default_cold_start(id: &'static str, rec: &mut spec::record::Recorder) {
+    cold_start_equal(rec, "the whole public API (api_digest)", &cold_inputs(), &move |x| api_digest_for(id, x));
 }
 
 /// The same digest from the three calling contexts (ordinary, second call of the thread, the
 /// destructor of a thread-local created before the thread's first call into the crate).
-pub fn judge_digest_contexts(rec: &mut spec::record::Recorder) {
-    struct G(std::sync::Arc<std::sync::Mutex<Option<Vec<String>>>>);
+pub fn judge_digest_contexts(id: &'static str, rec: &mut spec::record::Recorder) {
+    struct G(std::sync::Arc<std::sync::Mutex<Option<Vec<String>>>>, &'static str);
     impl Drop for G {
         fn drop(&mut self) {
+            let id = self.1;
+            let api_digest = |x: &[u8]| api_digest_for(id, x);
             let r = catch_unwind(AssertUnwindSafe(|| cold_inputs().iter().map(|x| api_digest(x)).collect::<Vec<String>>())).unwrap_or_else(|_| vec!["PANIC: unwound out of the digest".to_string()]);
             if let Ok(mut g) = self.0.lock() {
                 *g = Some(r);
@@ -745,7 +809,8 @@ pub fn judge_digest_contexts(rec: &mut spec::record::Recorder) {
     let slot = std::sync::Arc::new(std::sync::Mutex::new(None));
     let slot2 = slot.clone();
     let h = std::thread::spawn(move || {
-        SLOT.with(|t| *t.borrow_mut() = Some(G(slot2)));
+        let api_digest = |x: &[u8]| api_digest_for(id, x);
+        SLOT.with(|t| *t.borrow_mut() = Some(G(slot2, id)));
         let a: Vec<String> = cold_inputs().iter().map(|x| api_digest(x)).collect();
         let b: Vec<String> = cold_inputs().iter().map(|x| api_digest(x)).collect();
         (a, b)
@@ -759,7 +824,7 @@ pub fn judge_digest_contexts(rec: &mut spec::record::Recorder) {
         }
     };
     let c = slot.lock().ok().and_then(|mut g| g.take()).unwrap_or_default();
-    let here: Vec<String> = cold_inputs().iter().map(|x| api_digest(x)).collect();
+    let here: Vec<String> = cold_inputs().iter().map(|x| api_digest_for(id, x)).collect();
     rec.events(4 * a.len() as u64);
     let inputs = cold_inputs();
     let diff = |p: &str, q: &str| -> String {
